@@ -149,6 +149,50 @@ def run(pid, tier, seed, replay=None):
             L.append('WALK %d' % k)
         L += ['FREEG 0'] + ['WALK %d' % (len(ws) - 1)] + ['FREET %d 1' % k for k in range(len(ws))]
         add('reparse', {'grammar': yvlib.grammar_text(g.as_dict())[:300], 'inputs': [' '.join(w) for w in ws]}, L)
+    # 7. dynamic lookahead with hundreds of contexts (the tables of situations by context are re-allocated)
+    for k in ([300, 600] if quick else [300, 520, 600, 900, 1500]):
+        terms = [('n', 1)] + [('t%d' % i, 10 + i) for i in range(k)]
+        rhs = []
+        for i in range(k):
+            rhs += ['N', 't%d' % i]
+        gd = {'terms': terms, 'rules': [('S', rhs, None, 0, None), ('N', ['n'], 'n', 0, [0])]}
+        toks = []
+        for i in range(k):
+            toks += [1, 10 + i]
+        for la in (2, 1):
+            add('contexts', {'symbols': k, 'lookahead': la}, ['NEW 0', 'SET 0 0 %d' % la] + yvlib.script_read(0, gd, 0) +
+                ['PARSE 0 0 %d %s' % (len(toks), ' '.join(map(str, toks))), 'PARSE 0 0 %d %s' % (len(toks) - 1, ' '.join(map(str, toks[:-1]))), 'FREEG 0', 'FREET 0 0', 'FREET 1 0'])
+    # 8. a terminal with a long name described twice with different codes: the message quotes a bounded part of the name
+    for _ in range(40 if quick else 400):
+        L_ = rng.choice([98, 99, 100, 101, 120, 150, 199, 200, 201, 300])
+        ch = rng.choice('QZJ')
+        name = ch * L_
+        t = 'TERM %s = 1 %s = 2 ;\nS : %s ;\n' % (name, name, name)
+        add('twice', {'name_length': L_, 'char': ch}, ['NEW 0', 'DESC 0 0 %s' % hx(t), 'ERR 0', 'FREEG 0'])
+    # 10. a rule with more right hand side symbols than a short can count (the dot position of a situation)
+    for n in ([32769] if quick else [32767, 32768, 33000, 40000]):
+        gd = {'terms': [('a', 97), ('b', 98)], 'rules': [('S', ['a'] * (n - 1) + ['b'], None, 0, None)]}
+        toks = ['97'] * (n - 1) + ['98']
+        add('longrule', {'rhs_symbols': n}, ['NEW 0', 'SET 0 0 %d' % rng.choice([0, 1, 2])] + yvlib.script_read(0, gd, 0) +
+            ['PARSE 0 0 %d %s' % (n, ' '.join(toks)), 'PARSE 0 0 %d %s' % (n - 1, ' '.join(toks[:-1])), 'FREEG 0', 'FREET 0 0', 'FREET 1 0'])
+    # 9. costs near INT_MAX with the cost flag: the sums of minimal cost pruning and its visit marks stay in range
+    for _ in range(60 if quick else 600):
+        g = gen.family_grammar(rng, costs=(0, 3), fam=rng.choice(['split', 'shared', 'ops', 'nullable', 'stmts']))
+        if not g.well_formed(False):
+            continue
+        big = [2147483647, 2147483646, 2147483640, 1073741824, 1073741823, 2000000000]
+        rules = [(l, r, an, (rng.choice(big) if an is not None and rng.random() < 0.5 else c), tr) for (l, r, an, c, tr) in g.rules]
+        gb = gen.Gram(g.terms, rules)
+        ws = [w for w in gen.family_inputs(rng, g, 3)]
+        if not ws:
+            continue
+        am = rng.choice([0, 0, 1])
+        L = ['NEW 0', 'SET 0 2 %d' % rng.choice([0, 1]), 'SET 0 3 1'] + yvlib.script_read(0, gb.as_dict(), 0)
+        for k, w in enumerate(ws):
+            L.append('PARSE 0 %d %d %s' % (am, len(w), ' '.join(map(str, gen.codes_of(g, w)))))
+            L.append('WALK %d' % k)
+        L += ['FREEG 0'] + ['FREET %d 1' % k for k in range(len(ws))]
+        add('bigcost', {'grammar': yvlib.grammar_text(gb.as_dict())[:300], 'inputs': [' '.join(w) for w in ws]}, L)
     # 6. a good definition, a rejected re-definition (every kind of defect), then parses
     for _ in range(150 if quick else 2000):
         g = gen.rand_wf_grammar(rng, False, max_nt=3, max_t=3, max_rhs=3, p_anode=0.6)
@@ -175,6 +219,15 @@ def run(pid, tier, seed, replay=None):
             what = 'watchdog timeout' if r['abort'] == 'signal 14' else r['abort']
             chk.violation(sig % 'abort', '%s: %s %s' % (kind, what, (r.get('stderr') or [''])[:3]), rep)
             continue
+        if kind == 'twice':
+            # the quoted name is a prefix of the name: nothing but its character between the fixed words
+            import re as _re
+            for o in r['ops']:
+                m_ = _re.match(r'^term (.*) described repeatedly with different code$', o.get('em') or '', _re.S)
+                if o.get('op') == 'err' and m_ and (set(m_.group(1)) - {info['char']} or len(m_.group(1)) > info['name_length']):
+                    chk.violation(sig % 'quoted', 'the message quotes %r (%d characters) for a terminal named %d x %r' % (
+                        m_.group(1)[:120], len(m_.group(1)), info['name_length'], info['char']), rep)
+                    break
         for o in r['ops']:
             if 'emlen' in o:
                 stats['max_message_length'] = max(stats['max_message_length'], o['emlen'])
@@ -186,6 +239,41 @@ def run(pid, tier, seed, replay=None):
                 if not (1 <= o['rc'] <= 17):
                     chk.violation(sig % 'code', 'undocumented return code %d' % o['rc'], rep)
                     break
+    # a parse with dynamic lookahead and more than 512 terminal sets in which one big memory request fails, then the same
+    # parse again on the same object: the tables of the grammar must have stayed consistent (the later call must not crash)
+    try:
+        exe_f = yvlib.build_impl('fault')
+    except yvlib.BuildError as e:
+        chk.obl['broken'].append('implementation (fault build) does not build: ' + str(e)[-800:])
+        return chk.finish(extra_cov={'stream': stats})
+    nb_ = 560
+    terms = [('x', 1)] + [('a%d' % i, 10 + i) for i in range(nb_)] + [('t%d' % i, 1000 + i) for i in range(nb_)]
+    rules = [('S', [], None, 0, None), ('S', ['S', 'P'], None, 0, None), ('X', ['x'], None, 0, None)] + [('P', ['a%d' % i, 'X', 't%d' % i], None, 0, None) for i in range(nb_)]
+    toks = []
+    for i in range(nb_):
+        toks += [10 + i, 1, 1000 + i]
+
+    def fcase(k):
+        return '\n'.join(['CASE ft%d' % k, 'NEW 0', 'SET 0 0 2'] + yvlib.script_read(0, {'terms': terms, 'rules': rules}, 0) +
+                         ['COUNTERS', 'FAILBIG %d 4000' % k, 'PARSE 0 0 %d %s' % (len(toks), ' '.join(map(str, toks))), 'COUNTERS', 'FAILBIG -1 0',
+                          'PARSE 0 0 %d %s' % (len(toks), ' '.join(map(str, toks))), 'FREEG 0', 'END'])
+    b = yvlib.run_driver(exe_f, fcase(-1), timeout_case=120)[0]
+    cs = [o for o in b.get('ops', []) if o['op'] == 'counters']
+    nbig = cs[1]['big'] if len(cs) > 1 else 0
+    ks = list(range(1, nbig + 1))
+    if quick and len(ks) > 48:
+        ks = sorted(rng.sample(ks, 48))
+    fres = yvlib.run_driver(exe_f, '\n'.join(fcase(k) for k in ks), timeout_case=120) if ks else []
+    stats['big_requests_of_the_context_parse'] = nbig
+    stats['failing_big_requests_tried'] = len(ks)
+    for k, r in zip(ks, fres):
+        chk.note_case(('faultthen', k), True, {'kind': 'faultthen', 'failing_big_request': k})
+        ps_ = [o for o in r.get('ops', []) if o['op'] == 'parse']
+        if 'abort' in r and len(ps_) >= 1:
+            # the first parse returned: the crash is in the later, fault-free call
+            chk.violation('C12:faultthen:k=%d' % k, 'after a parse in which big memory request %d failed (returned %s) the next parse on the same object: %s %s' % (
+                k, ps_[0].get('rc'), r.get('abort'), (r.get('stderr') or [''])[:2]), {'property': 'C12', 'kind': 'faultthen', 'failing_big_request': k,
+                'grammar': 'S : | S P ; X : x ; P : a_i X t_i (i < %d), lookahead level 2' % nb_, 'implementation': {'abort': r.get('abort'), 'stderr': r.get('stderr')}})
     chk.cov['rule'] = ('arbitrary byte strings and mutated descriptions (exact-size buffers); callback grammars with 199-1000 character names and injected defects (every '
                        'message site); 63-300 terminals with sparse / dense codes and token codes below, between, above the declared ones and INT_MAX; arbitrary values of all six '
                        'settings; all under ASan/UBSan with a 30 s watchdog')
